@@ -720,10 +720,17 @@ fn persistent_session_resumes_from_the_oldest_unacknowledged_message() {
             for k2 in 0..=2usize {
                 for end in [End::LinkFailure, End::DisconnectPacket, End::Takeover] {
                     for cycles in 1..=2usize {
+                      for retained_first in [false, true] {
+                        if retained_first && acked > 0 {
+                            continue; // acknowledgements are in order: nothing behind an unacknowledged retained replay can be acknowledged
+                        }
                         cases += 1;
-                        let desc = format!("{} messages delivered, {} acknowledged, connection ends by {:?}, {} messages while away, {} reconnect cycle(s)", k1, acked, end, k2, cycles);
+                        let desc = format!("{} messages delivered, {} acknowledged, connection ends by {:?}, {} messages while away, {} reconnect cycle(s), unacknowledged retained replay at the head of the window: {}", k1, acked, end, k2, cycles, retained_first);
                         let mut r = new_router();
                         let p = connect(&mut r, "p", true).unwrap();
+                        if retained_first {
+                            send(&mut r, &p, vec![publish("s/r", 0, 0, "keep", true)]);
+                        }
                         let mut c = connect(&mut r, "c", false).unwrap();
                         send(&mut r, &c, vec![subscribe(1, &[("s/#", 1)])]);
                         let first = shown(&drain(&mut r, &c));
@@ -739,7 +746,7 @@ fn persistent_session_resumes_from_the_oldest_unacknowledged_message() {
                             expected_pending.push(format!("m{}", seqno));
                             seqno += 1;
                         }
-                        let delivered: Vec<(u16, String)> = drain(&mut r, &c).into_iter().filter_map(|n| match n { RNotification::Forward(Forward { publish, .. }) => Some((publish.pkid, String::from_utf8_lossy(&publish.payload).to_string())), _ => None }).collect();
+                        let delivered: Vec<(u16, String)> = drain(&mut r, &c).into_iter().filter_map(|n| match n { RNotification::Forward(Forward { publish, .. }) => Some((publish.pkid, String::from_utf8_lossy(&publish.payload).to_string())), _ => None }).filter(|d| d.1 != "keep").collect();
                         if delivered.iter().map(|d| d.1.clone()).collect::<Vec<_>>() != expected_pending {
                             fail = Some(format!("input=[{}] detail=[before the disconnect the client received {:?}]", desc, delivered));
                             break 'outer;
@@ -775,7 +782,8 @@ fn persistent_session_resumes_from_the_oldest_unacknowledged_message() {
                                 fail = Some(format!("input=[{}] detail=[reconnect {} got {:?}: session not reported present]", desc, cycle, txt));
                                 break 'outer;
                             }
-                            let redelivered: Vec<String> = notes.iter().filter_map(|n| match n { RNotification::Forward(Forward { publish, .. }) => Some(String::from_utf8_lossy(&publish.payload).to_string()), _ => None }).collect();
+                            // (one-off replays of retained messages are excepted by the property: ignored here)
+                            let redelivered: Vec<String> = notes.iter().filter_map(|n| match n { RNotification::Forward(Forward { publish, .. }) => Some(String::from_utf8_lossy(&publish.payload).to_string()), _ => None }).filter(|x| x != "keep").collect();
                             last_pkids = notes.iter().filter_map(|n| match n { RNotification::Forward(Forward { publish, .. }) => Some(publish.pkid), _ => None }).collect();
                             if redelivered != expected_pending {
                                 fail = Some(format!("input=[{}] detail=[after reconnect {} (no re-subscribe) the client received {:?}, expected {:?}: unacknowledged ones again, acknowledged ones not, then what arrived while away]", desc, cycle, redelivered, expected_pending));
@@ -811,12 +819,13 @@ fn persistent_session_resumes_from_the_oldest_unacknowledged_message() {
                             fail = Some(format!("input=[{}] detail=[clean session still has a subscription: {:?}]", desc, txt));
                             break 'outer;
                         }
+                      }
                     }
                 }
             }
         }
     }
-    report(name, "C08", "0..3 delivered x 0..k acknowledged x 0..2 while away x {link failure, DISCONNECT, takeover} x 1..2 reconnect cycles, then clean-session connect", cases, fail);
+    report(name, "C08", "0..3 delivered x 0..k acknowledged x 0..2 while away x {link failure, DISCONNECT, takeover} x 1..2 reconnect cycles x with/without an unacknowledged retained replay at the head of the window, then clean-session connect", cases, fail);
 }
 
 // ---------------------------------------------------------------------------------------------
